@@ -232,6 +232,35 @@ inline std::shared_ptr<AbstractArray<uint8_t>> exactBuffer(const uint8_t *bytes,
   return std::make_shared<FixedArray<uint8_t>>(const_cast<uint8_t *>(bytes), n);
 }
 
+// the same bytes presented to the reader through each kind of AbstractArray (a reader only sees the interface)
+inline std::shared_ptr<AbstractArray<uint8_t>> bufferOfKind(const uint8_t *bytes, size_t n, int kind, std::shared_ptr<void> &keep)
+{
+  switch (((kind % 4) + 4) % 4) {
+  case 1: {
+    std::vector<uint8_t> v(bytes, bytes + n);
+    return std::make_shared<OwnedArray<uint8_t>>(v);
+  }
+  case 2: {
+    // a non-owning view over a heap block of exactly n bytes
+    std::shared_ptr<uint8_t> block((uint8_t *)malloc(n ? n : 1), free);
+    if (n)
+      memcpy(block.get(), bytes, n);
+    keep = block;
+    return std::make_shared<ArrayView<uint8_t>>(block.get(), n);
+  }
+  case 3: {
+    // what FixedBufferWriter::getWrittenView() hands out
+    auto fw = std::make_shared<FixedBufferWriter>(n);
+    if (n)
+      fw->write(bytes, n);
+    keep = fw;
+    return fw->getWrittenView();
+  }
+  default:
+    return exactBuffer(bytes, n);
+  }
+}
+
 inline void runSeq(const SeqCase &c, pbt::Ctx &ctx)
 {
   // 1. write through the three writers
@@ -261,7 +290,11 @@ inline void runSeq(const SeqCase &c, pbt::Ctx &ctx)
   }
   // 2. read back in order
   {
-    BufferReader r(exactBuffer(bytes.data(), total));
+    std::shared_ptr<void> keep;
+    const int kind = (int)((c.vals.size() + c.viewCounts.size()) % 4);
+    static const char *KIND[] = {"FixedArray", "OwnedArray", "ArrayView", "FixedArrayView"};
+    ctx.label(std::string("reader over ") + KIND[kind]);
+    BufferReader r(bufferOfKind(bytes.data(), total, kind, keep));
     for (auto &x : c.vals) {
       PBT_ASSERT_MSG(!r.end(), "end() is true before the last value was read");
       readAndCheck(r, x);
